@@ -24,7 +24,7 @@ MASK_SIZES_Q = [(8, 8), (12, 10), (6, 6)]
 
 
 def configs(tier, seed):
-    out = [dict(c, mask=None) for c in C03.configs(tier, seed)]
+    out = [dict(c, mask=None) for c in C03.configs(tier, seed) if c.get('ctx') != 'chlast']
     for (h, w, J) in [(12, 16, 3), (16, 12, 3)] + ([(16, 20, 3), (20, 16, 3), (24, 20, 3), (14, 16, 3), (24, 16, 4)] if tier == 'thorough' else []):
         out.append(dict(biort='near_sym_a', qshift='qshift_a', J=J, H=h, W=w, B=1, C=1, mask=None))
     pairs = [('near_sym_a', 'qshift_a')] if tier == 'quick' else [('near_sym_a', 'qshift_a'), ('antonini', 'qshift_06'), ('near_sym_b', 'qshift_b')]
@@ -38,6 +38,9 @@ def configs(tier, seed):
                     masks = [m for m in masks if keep is None and (hash(m) + seed) % 3 == 0 or keep is not None and ''.join(m) in keep]
                 for m in masks:
                     out.append(dict(biort=b, qshift=q, J=J, H=h, W=w, B=1, C=1, mask=''.join(m)))
+    for ctx in ('nograd', 'transposed', 'reqgrad'):      # (channels-last pyramids: the shim's memory-format model of stack()/conv outputs is not validated for 6-D band tensors)
+        out.append(dict(biort='near_sym_a', qshift='qshift_a', J=2, H=6, W=8, B=1, C=2, ctx=ctx))
+        out.append(dict(biort='near_sym_a', qshift='qshift_a', J=2, H=8, W=8, B=1, C=1, mask='PNP', ctx=ctx))
     return out
 
 
@@ -61,7 +64,7 @@ def case(cfg):
         args = list(ts)
         if mask:
             args = [a if m == 'P' else _absent(tt, m) for a, m in zip(args, mask)]
-        return [('rec', inv((args[0], args[1:])))]
+        return [('rec', D.call_ctx(pw, cfg, lambda a: inv((a[0], a[1:])), args))]
 
     def ref(arrs):
         arrs = list(arrs)
